@@ -103,6 +103,11 @@ def make_files():
         return ''.join(alphabet[(i * 7 + i // 61 + (i * i) // 4099) % 64] for i in range(n))
     recipe['LC20'] = [vlib.mkzoo('c10_LC20', rate=8000, ch=1, n=600, q=0.3, sig='mix', serial=81, pages='flush', tag=longtag(20000))]
     recipe['LC70'] = [vlib.mkzoo('c10_LC70', rate=8000, ch=1, n=600, q=0.3, sig='mix', serial=82, pages='flush', tag=longtag(70000))]
+    # header-size ladder beyond two maximal pages (comment + setup span 3..7 pages; round-7 seed C10r7-2: header section bounded to CHUNKSIZE), alone and
+    # as the SECOND link of a chain (streaming mode meets the big header at a link boundary)
+    for size in (131000, 140000, 200000, 400000):
+        recipe['LC%d' % (size // 1000)] = [zoo.big_comment('A', 83 + size // 100000, size)]
+    recipe['LCC'] = [zoo.link('A', 95, '3'), zoo.big_comment('A', 96, 140000)]
     out = {}
     for name, links in recipe.items():
         data = b''.join(open(p, 'rb').read() for p, _ in links)
@@ -321,7 +326,7 @@ def run(tier):
     phase('hiserial', 'hiserial', ch, 'h', 400)
 
     # ---- phase 0c: huge header pages under tiny read answers (a 22 KB / a maximal 65307-byte page one or two bytes at a time)
-    LCF = ['LC20', 'LC70']
+    LCF = ['LC20', 'LC70', 'LC131', 'LC140', 'LC200', 'LC400', 'LCC']
     cl = []
     for f in LCF:
         F = files[f]
@@ -333,7 +338,7 @@ def run(tier):
             cl += [R.case(f, p, 'f', q, c, []) for q in ('c1', 'r70') for c in (1, 2)]
         for p in ('s', 'n'):
             cl += [R.case(f, p, a_, q, c, []) for (a_, q) in (('i', 'b4096'), ('i', 'F1'), ('g', 'b64'), ('k', 'a4,1000')) for c in (1, 2, 3)]
-        if thorough:
+        if thorough and f in ('LC20', 'LC70', 'LC140', 'LCC'):
             for p in PATHS:
                 cl += [R.case(f, p, 'f', 'c4096', c, []) for c in range(4, 2047)]
                 if f == 'LC20':
